@@ -32,6 +32,7 @@ SIG_GARBAGE_WRITTEN = 'C07:fs-gc-drops-current-revision-of-garbage-object-writte
 SIG_REPACK = 'C07:fs-repack-same-time-removes-more'
 SIG_MAP_KEYERROR = 'C07:mapping-gc-keyerror-leaves-partial-state'
 SIG_DEMO_ATTR = 'C07:demo-pack-attributeerror'
+SIG_REFUSED_BACKPTR = 'C07:pack-refused-backpointer-to-removed'
 
 EPOCH = 1577836800        # 2020-01-01 00:00:00 UTC; model time m <-> EPOCH + 15*m seconds
 STEP = 15                 # multiples of 15 s are exactly representable in a TimeStamp
@@ -426,8 +427,13 @@ def judge_pack(before, after, T, gc, kind, outcome, truth, bounds, counts):
         bad.append((sig, 'pack(T=%d, gc=%d) on %s removed revision (tid %d, oid %d): not superseded at T and '
                          'the object is %s' % (T, gc, kind, m, o,
                                                'reachable at T' if o in reachT else 'written after T')))
-    # a crash is not a refusal (only KeyError / PackError / AssertionError / ValueError / TypeError are
-    # raised on purpose by the pack code)
+    # a crash is not a refusal (only KeyError / ValueError / TypeError are raised on purpose by the
+    # pack code)
+    if outcome in ('err:PackError', 'err:Assertion'):
+        # (repaired in /repo: the copier writes the data in full and patches the header length)
+        bad.append((SIG_REFUSED_BACKPTR,
+                    'pack(T=%d, gc=%d) on %s failed with %s: a record after T points back to a revision the '
+                    'pack removes' % (T, gc, kind, outcome[4:])))
     if outcome.startswith('err:Other('):
         bad.append((SIG_DEMO_ATTR if (kind == 'demofs' and 'AttributeError' in outcome) else 'C07:pack-crashed',
                     'pack(T=%d, gc=%d) on %s crashed with %s' % (T, gc, kind, outcome[10:-1])))
@@ -533,6 +539,7 @@ def run_case(case, tmp, want_model=True):
             shutil.copy(path, path + '.orig')
             st = open_storage(kind, path)
         maxT = None
+        later_changed = False
         crossing = False
         freed = False
         for i, (T, gc) in enumerate(seq):
@@ -573,8 +580,12 @@ def run_case(case, tmp, want_model=True):
                 Tc = T if maxT is None else max(T, maxT)
                 res['lines'].append('loads %d %s %s' % (Tc, ','.join(map(str, oids)), ','.join(map(str, bounds))))
                 res['expect'].append(canon_loads(after, Tc, oids, bounds))
-            if not outcome.startswith('err:'):
+            # "packing again" presupposes a pack that was carried out: FileStorage keeps no record of a
+            # pack that freed nothing, so a later pack to an earlier time is then judged as a first pack
+            if outcome in ('ok', 'done'):
                 maxT = T if maxT is None else max(maxT, T)
+            if i > 0 and full_listing(before['listing']) != full_listing(after['listing']):
+                later_changed = True
             before = after
         res['nontrivial'] = bool(crossing and freed)
         # reopen: the packed file answers identically
@@ -590,7 +601,8 @@ def run_case(case, tmp, want_model=True):
                 res['bad'].append(('C07:reopen-differs', 'answers differ after close/reopen of the packed %s' % kind))
             # undo series of the transactions after the pack time, newest first
             T0 = seq[0][0]
-            if maxT is not None and T0 == maxT and not any(sig == SIG_MAP_KEYERROR for sig, _ in res['bad']):
+            if (maxT is not None and T0 == maxT and not later_changed
+                    and not any(sig == SIG_MAP_KEYERROR for sig, _ in res['bad'])):
                 res['bad'] += undo_series(st, kind, path, first, T0, seq[0][1], oids, truth, counts, serial)
         if res['bad'] or res['nontrivial']:
             res['sample'] = dict(kind=kind, seq=seq, ops=ops[:6], outcomes=[k for k in counts if k.startswith('pack:')])
@@ -806,8 +818,11 @@ def main(argv=None):
             'gc packs; its satisfaction rate on the generated (history, T) pairs is in histogram NoResurrection:*; '
             'differences it excuses by sentence 1 are counted as excused:resurrected-object-of-R',
             'tombstones (un-creation / deletion records) are not "revisions" in the sense of sentence 1',
-            'FileStorage pack(gc=False) refuses (PackError / AssertionError, file unchanged) when a back pointer '
-            'after T targets a dropped record: counted in pack:fs:err:*, not a violation (nothing changes)',
+            'sentence 3 ("packing again") is judged after a pack that was carried out (rewrote the file / set '
+            'MappingStorage._last_pack); after a pack that freed nothing FileStorage keeps no trace of the pack '
+            'time, and a later pack to an earlier time is judged as a first pack (sentences 1-2)',
+            'a deliberate refusal (KeyError for a dangling reference, ValueError, TypeError, RedundantPackWarning) '
+            'must leave the storage unchanged; any other exception is reported as C07:pack-crashed',
             'referencesf is run on the real pickles to feed the model; the oracle uses the generator\'s own lists',
         ])
 
